@@ -287,10 +287,13 @@ pub struct CastleFamily {
     pub extras: u32,
     /// also give the opponent both rooks and full rights (rook-captured-at-home transitions)
     pub opp_rights: bool,
+    /// the side WITHOUT the enumerated rights is to move (so its king and extra men can capture
+    /// a rook on its home square, or give check, in one ply)
+    pub opp_to_move: bool,
 }
 impl Family for CastleFamily {
     fn name(&self) -> String {
-        format!("castling family ({} extra men{})", self.extras, if self.opp_rights { ", opponent with rights" } else { "" })
+        format!("castling family ({} extra men{}{})", self.extras, if self.opp_rights { ", opponent with rights" } else { "" }, if self.opp_to_move { ", opponent to move" } else { "" })
     }
     fn size(&self) -> u64 {
         2 * 3 * 64 * (1 + 10 * 64u64).pow(self.extras)
@@ -300,7 +303,7 @@ impl Family for CastleFamily {
         let rights = take(&mut i, 3) + 1; // 1 = K, 2 = Q, 3 = both
         let ok = take(&mut i, 64) as u8;
         let mut p = RefPos::empty();
-        p.stm = me;
+        p.stm = if self.opp_to_move { me.flip() } else { me };
         let hr = me.home_rank();
         p.put(sq(4, hr), Kind::K, me);
         let (kb, qb) = if me == Col::W { (WK, WQ) } else { (BK, BQ) };
